@@ -51,6 +51,11 @@ CHECKS = {
   "All ordered pairs of ~110 operand representations (0, +-1, int32/int64 limits and neighbours, 2^53 neighbours, sqrt(2^63) neighbours, fractions, huge/tiny doubles; int64, float64, json.Number incl. exponent spellings) x five operators x both modes x three deliveries, both unary operators, operand-sequence rule, and the identities -(-x)=x, x+y=y+x, x*y=y*x.",
   "Operands outside the corpus are not covered; where the exact integer result does not fit int64 either the IEEE double or a suppressible error is accepted.",
   "DESIGN.md §3 C13"),
+ "C01": ("model_checking", "ref-conformance",
+  "bounded exhaustive enumeration of programs x documents x configurations against a reference interpreter of the documented rules",
+  "Every abstract path with <=3 (thorough 4) nodes over the full language plus every construct nested in filters and subscripts, both modes, x every JSON document with <=3 nodes plus 27 special documents x {float64, json.Number} x {verbose, silent} x variable bindings x {WithTZ, context zone}: Query's items (ordered; multiset where member order is open) and error class must equal the reference interpreter's.",
+  "Trusts the reference model (DESIGN.md Appendix A); cases it declines (open points of the documentation) are counted in oracle_declined; programs/documents beyond the bounds are not covered; three recorded defects are classified by emulation.",
+  "DESIGN.md §3 C01"),
 }
 
 PENDING = {}
